@@ -66,6 +66,15 @@ JudgeSetup(e) ==
                   /\ Say("VERDICT", e, "srs-consistent", ToString(n) \o " powers, " \o ToString(e.draws) \o " draws")
              ELSE Say("MISMATCH", e, "setup", e.res)
 
+\* a large setup observed through a sample of its powers (idx = 0-based power indexes):
+\* power i of the reference string is [s_g tau^i]
+JudgeSetupSample(e) ==
+  IF e.res = "ok" /\ Has(e, "len") /\ e.len = e.d + 7 /\ Len(e.idx) = Len(e.powers)
+  THEN /\ \A j \in 1..Len(e.idx) :
+            DLog(e, "powers/" \o ToString(j - 1), << BMul(e.sg, Pl!PowI(e.tau, e.idx[j])) >>)
+       /\ Say("VERDICT", e, "srs-sampled", ToString(Len(e.idx)) \o " of " \o ToString(e.len) \o " powers")
+  ELSE Say("MISMATCH", e, "setup-sample", e.res)
+
 (* ---------------- trim ---------------- *)
 JudgeTrim(e) ==
   LET key == KeyOf(Rec[e.sid]).val
@@ -167,6 +176,7 @@ JudgeBatch(e) ==
 
 Judge(e) ==
   IF e.ev = "setup" THEN JudgeSetup(e)
+  ELSE IF e.ev = "setup-sample" THEN JudgeSetupSample(e)
   ELSE IF e.ev = "trim" THEN JudgeTrim(e)
   ELSE IF e.ev = "commit" THEN JudgeCommit(e)
   ELSE IF e.ev = "linear" THEN JudgeLinear(e)
